@@ -137,9 +137,11 @@ CHECKS = {
     "C09": dict(
         text="Theorems (Coq, every module list / import list / k): nodes of the limited graph = truncations of the full graph's nodes (C09_quotient_modules); a imports b iff some x->y of the full graph truncates to (a,b), a<>b, hierarchy-coinciding "
              "imports absorbed (C09_quotient_imports, under: import endpoints are modules); limit counted below module_path (C09_effective_limit); C09_related_refuted: kernel-checked witness that verdict preservation fails for related subject/object (known finding K1). "
-             "Verdict preservation for unrelated rules: checked on the real code (both architectures) for C01's shapes - no theorem yet (partial). Tie to /repo: random projects x module_path x k=1..depth: limited scan vs quotient of the unlimited scan and vs model.",
+             "C09_verdict_preserved: every rule of C01's strict space whose named modules lie at or above level k (sub-modules-of parents strictly above) passes on the flattened graph iff it passes on the full graph, and is never an error "
+             "(via C01_verdict on both graphs + C09_semantics_preserved), under the extra hypothesis that no module imports its own descendant (C09_down_import_refuted shows it is needed; in a scan it takes a file and a directory of one name). "
+             "Also checked on the real code (both architectures) for C01's shapes. Tie to /repo: random projects x module_path x k=1..depth: limited scan vs quotient of the unlimited scan and vs model.",
         note="K1 is an open known finding (known_findings.json), matched per case (related subject/object + level-limited). Trusted: Coq kernel, extraction, driver, harness.",
-        technique="Coq proof (quotient characterisation) + refuted-witness + metamorphic correspondence on real scans",
+        technique="Coq proof (quotient characterisation, verdict preservation on the strict domain) + refuted-witnesses + metamorphic correspondence on real scans",
         design="5/C09"),
     "C10": dict(
         text="Theorems (Coq, exclusion patterns as oracle): externals excluded => every kept import is internal and no external module is added; included => every external importee and all its ancestors are modules; "
